@@ -135,15 +135,23 @@ SendCtxDone(s) ==
   /\ Step("SendCtxDone", s, None)
   /\ sctx' = [sctx EXCEPT ![s] = "done"]
   /\ UNCHANGED <<reg, lpc, ctx, wpc, closed, inside, spc, targets, needGc, count, got, hist>>
+\* ... and the listeners not served yet are offered the event without waiting: those whose consumer happens to
+\* be receiving at that instant (and whose channel is open) get it, the others do not.  (In the Gen configuration
+\* the harness is the consumer and receives only at Recv steps: nobody is ready.)
 Abandon(s) ==
-  LET l == Head(targets[s]) IN
+  LET l == Head(targets[s])
+      rest == { targets[s][k] : k \in 2..Len(targets[s]) }
+      able == IF Eager THEN {} ELSE { x \in rest : ~closed[x] /\ ctx[x] = "live" /\ wpc[x] # "locking" }
+  IN
   /\ spc[s] = "inside" /\ sctx[s] = "done"
   /\ Step("Abandon", s, l)
+  /\ \E ready \in SUBSET able :
+        got' = [x \in Listeners |-> IF x \in ready THEN Append(got[x], <<s, count[s]>>) ELSE got[x]]
   /\ inside' = [inside EXCEPT ![l] = inside[l] \ {s}]
   /\ targets' = [targets EXCEPT ![s] = <<>>]
   /\ spc' = [spc EXCEPT ![s] = "done"]
   /\ hist' = [k \in 1..Len(hist) |-> IF hist[k].ev = <<s, count[s]>> THEN [hist[k] EXCEPT !.open = FALSE, !.live = {}] ELSE hist[k]]
-  /\ UNCHANGED <<reg, lpc, ctx, wpc, closed, needGc, count, sctx, got>>
+  /\ UNCHANGED <<reg, lpc, ctx, wpc, closed, needGc, count, sctx>>
 
 Collect(s) ==
   /\ spc[s] = "collect"
